@@ -188,7 +188,20 @@ def build_config(optimizer, cfg_spec):
     return reg["cfg_cls"](**kw), True
 
 
-def build_optimizer(optimizer, cfg_spec, debug=False):
+def build_optimizer(optimizer, cfg_spec, debug=False, configure=None):
+    """configure: None = the configuration is passed to the constructor; "set" = a bare instance receives it through
+    set_config_parameters (HyperTuner's way); "reset" = an instance constructed with the documented configuration and
+    other stopping options receives it through set_config_parameters"""
     reg = registry.load()[optimizer]
     cfg, repaired = build_config(optimizer, cfg_spec)
-    return (reg["cls"](cfg, debug=True) if debug else reg["cls"](cfg)), cfg, repaired
+    kw = {"debug": True} if debug else {}
+    if configure is None:
+        return reg["cls"](cfg, **kw), cfg, repaired
+    if configure == "set":
+        opt = reg["cls"](**kw)
+    else:
+        es = cfg.early_stopping
+        other = EarlyStopping(patience=1 if es is None or es.patience > 1 else 5, min_delta=0.5)
+        opt = reg["cls"](reg["cfg_cls"](**dict(reg["params"], early_stopping=other, fitness_error=None)), **kw)
+    opt.set_config_parameters(cfg.model_dump())
+    return opt, opt.configuration, repaired
